@@ -308,7 +308,8 @@ def check_property(pid, harness_path, tier, seed, only=None):
                     call = r.get('cex_call')
                     crow['witness'] = call
                     if call:
-                        rr = replay_call(harness_path, o.fn, j['part'], call, canary=cname)
+                        rr = replay_call(harness_path, o.fn, j['part'], call, canary=cname,
+                                         timeout=30)
                         crow['replay_fails_on_broken_copy'] = \
                             rr.get('result') in (False, 'exception', 'timeout')
                         if rr.get('result') is True:
